@@ -2,6 +2,8 @@
 //! See lean/Driver/C13.lean for the protocol.
 
 use crate::util::*;
+#[path = "surface.rs"]
+mod surface;
 use crate::with_d;
 use easy_ml::matrices::Matrix;
 use easy_ml::tensors::indexing::{TensorAccess, TensorTranspose};
@@ -541,6 +543,20 @@ pub fn gen(g: &mut Gen) {
     gen_float_cases(g);
     gen_names_cases(g);
     gen_chain_cases(g);
+    gen_surface_cases(g);
+}
+
+/// "API surface": every public read / write route of TensorAccess, TensorTranspose and Tensor
+/// (see surface.rs), on shapes of dimensionality ≥ 3 with unequal lengths first.
+fn gen_surface_cases(g: &mut Gen) {
+    for lens in surface::SURFACE_SHAPES {
+        let shape = named(g, lens);
+        let n: usize = lens.iter().product();
+        let start = g.rng.below(40);
+        g.op(format!("@ t {} i{}x{}", show_shape(&shape), start, n));
+        let names: Vec<&'static str> = shape.iter().map(|s| s.0).collect();
+        surface::gen_surface_ops(g, &names);
+    }
 }
 
 // ---- "transformation then consumer": after a history of in-place transformations every
@@ -1521,6 +1537,11 @@ fn step_d<const D: usize>(t: &Tensor<u64, D>, toks: &[&str]) -> String {
         }
         ["first", rest @ ..] => first(t, &src_arg("src", rest), opt_arg("via", rest).unwrap_or("")),
         ["source", rest @ ..] => source(t, &src_arg("src", rest), opt_arg("via", rest).unwrap_or("source")),
+        [op @ ("sread" | "swrite"), kind, names_s, rest @ ..] => {
+            let names = parse_names(names_s);
+            let route = opt_arg("route", rest).unwrap_or("");
+            if *op == "sread" { surface::sread(t, kind, &names, route) } else { surface::swrite(t, kind, &names, route) }
+        }
         ["chain", steps_s, rest @ ..] => chain(t, steps_s, opt_arg("cons", rest).unwrap_or("iter")),
         ["is_square", ..] => easy_ml::tensors::dimensions::is_square(&t.shape()).to_string(),
         [op @ ("eq" | "similar"), shape_s, data_s, rest @ ..] => {
